@@ -360,7 +360,8 @@ static int t_mpz_div (const char *f, int budget)
           else { mpz_add_ui (wq, wq, 1); mpz_sub (wr, wr, d); }
         }
       int al = rnd64 () % 5; mpz_t nn, dd; mpz_init_set (nn, n); mpz_init_set (dd, d);
-      int isqr = !strcmp (f + 8, "qr"), useq = isqr || !strcmp (f + 8, "q"), user = isqr || !strcmp (f + 8, "r") || md;
+      const char *tail = md ? "r" : f + 9;                     /* "qr" | "q" | "r" after "mpz_fdiv_" / "mpz_cdiv_" */
+      int isqr = !strcmp (tail, "qr"), useq = isqr || !strcmp (tail, "q"), user = isqr || !strcmp (tail, "r");
       mpz_ptr pn = n, pd = d;
       /* every permitted identification of an output with an input: n==q, n==r, d==q, d==r */
       if (al == 1 && useq) pn = q; else if (al == 2 && user) pn = r; else if (al == 3 && useq) pd = q; else if (al == 4 && user) pd = r;
